@@ -157,6 +157,7 @@ func runC03(e *Engine, r *Report, tier string) {
 			continue
 		}
 		format, _ := constString(sp.Common().Args[0])
+		lossy := map[string]string{}
 		// variadic args: stores into the [n]interface{} array
 		type argInfo struct {
 			field string
@@ -215,6 +216,12 @@ func runC03(e *Engine, r *Report, tier string) {
 							}
 						}
 					}
+					if ai.field != "" {
+						// injective rendering: between the field and the pre-image only value-preserving renderings may occur
+						if bad := lossyCallOnPath(v, 0, map[ssa.Value]bool{}); bad != "" {
+							lossy[ai.field] = bad
+						}
+					}
 					args = append(args, ai)
 				}
 			}
@@ -239,6 +246,14 @@ func runC03(e *Engine, r *Report, tier string) {
 		sort.Strings(missing)
 		if len(missing) == 0 {
 			r.Ok("R1", name, e.Pos(hf.Pos()), fmt.Sprintf("%d fields hashed; exempt: BridgerAddress (claimer), ChainName (per-chain store)", len(hashed)))
+		}
+		var lf []string
+		for f := range lossy {
+			lf = append(lf, f)
+		}
+		sort.Strings(lf)
+		for _, f := range lf {
+			r.Fail("R1", name+"."+f+" rendering", e.Pos(hf.Pos()), "field "+f+" reaches the hash pre-image through "+lossy[f]+", which is not a value-preserving rendering: two different values of "+f+" can hash alike, so claims that execute differently are tallied together")
 		}
 		for _, m := range missing {
 			r.Fail("R1", name+"."+m, e.Pos(hf.Pos()), "field "+m+" is not part of the claim hash: two claims differing only in "+m+" are tallied together and the executed value is the threshold-crossing voter's")
@@ -391,4 +406,50 @@ func (e *Engine) HasTransEffect2(c ssa.CallInstruction, mod, hx, ops string) boo
 		}
 	}
 	return false
+}
+
+// lossyCallOnPath: walking back from a hash argument towards the message field it renders, the first call that is not
+// a known value-preserving rendering ("" if none). Renderings: String() of integers/addresses, hex/decimal formatting,
+// Sprintf, conversions.
+func lossyCallOnPath(v ssa.Value, depth int, seen map[ssa.Value]bool) string {
+	if v == nil || depth > 8 || seen[v] {
+		return ""
+	}
+	seen[v] = true
+	switch x := v.(type) {
+	case *ssa.Call:
+		n := callName(x)
+		switch n {
+		case "String", "EncodeToString", "Sprintf", "Sprint", "Itoa", "FormatUint", "FormatInt", "BigInt", "Hex", "Bytes":
+		default:
+			if _, isBuiltin := x.Call.Value.(*ssa.Builtin); !isBuiltin {
+				return n + "()"
+			}
+		}
+		for _, a := range callArgs(x) {
+			if b := lossyCallOnPath(a, depth+1, seen); b != "" {
+				return b
+			}
+		}
+	case *ssa.MakeInterface:
+		return lossyCallOnPath(x.X, depth+1, seen)
+	case *ssa.Convert:
+		return lossyCallOnPath(x.X, depth+1, seen)
+	case *ssa.ChangeType:
+		return lossyCallOnPath(x.X, depth+1, seen)
+	case *ssa.Extract:
+		return lossyCallOnPath(x.Tuple, depth+1, seen)
+	case *ssa.Phi:
+		for _, ed := range x.Edges {
+			if b := lossyCallOnPath(ed, depth+1, seen); b != "" {
+				return b
+			}
+		}
+	case *ssa.UnOp:
+		if _, ok := x.X.(*ssa.FieldAddr); ok {
+			return ""
+		}
+		return lossyCallOnPath(x.X, depth+1, seen)
+	}
+	return ""
 }
